@@ -5,6 +5,7 @@ mod case;
 mod fam;
 mod fe;
 mod gen;
+mod inv;
 mod malform;
 mod minimise;
 mod refcodec;
@@ -272,6 +273,10 @@ fn cmd_check(prop: &str, tier: Tier, part: bool) -> i32 {
             }
             violations += 1;
             if violations > 5 {
+                println!("further violation (not minimised): signature {} run_index={} seed={}", f.signature, f.idx, f.seed);
+                if exit_code == 0 {
+                    exit_code = 1;
+                }
                 continue;
             }
             // minimise, write the replay file, verify it reproduces in a fresh process
